@@ -32,7 +32,7 @@ func (opts *ClientLimiterOpts) setDefault() {
 		opts.V4Mask = 24
 	}
 	if m := opts.V6Mask; m <= 0 || m > 128 {
-		opts.V4Mask = 48
+		opts.V6Mask = 48
 	}
 }
 
